@@ -3,8 +3,11 @@ package c14
 import (
 	"bytes"
 	"fmt"
+	"net/http"
 	"os"
 	"strings"
+	"sync"
+	"testing"
 
 	"github.com/folbricht/desync"
 	"pgregory.net/rapid"
@@ -33,7 +36,152 @@ type MatrixCase struct {
 	Ops             []MOp       `json:"ops"`
 }
 
+// transferLimit is the default maximum chunk size (256 KiB). Nothing in the statement bounds the
+// size of a chunk or of its transfer form: indexes made with a larger maximum exist, and the
+// compressed form of an incompressible chunk is larger than the chunk.
+const transferLimit = 256 << 10
+
+// genBigChunkSpec: a chunk whose transfer form is around or well above 256 KiB.
+func genBigChunkSpec(t *rapid.T) ChunkSpec {
+	kind := rapid.SampledFrom([]string{"rand", "rand", "rand", "rand", "text", "period"}).Draw(t, "bigkind")
+	var n int
+	switch rapid.IntRange(0, 5).Draw(t, "biglenclass") {
+	case 0, 1:
+		n = rapid.IntRange(transferLimit-40, transferLimit+8).Draw(t, "biglen") // zstd framing of incompressible data: +9..+20 bytes
+	case 2:
+		n = transferLimit + rapid.IntRange(-1, 1).Draw(t, "biglen")
+	case 3:
+		n = rapid.IntRange(transferLimit+1, 300<<10).Draw(t, "biglen")
+	default:
+		n = rapid.IntRange(300<<10, 1<<20).Draw(t, "biglen")
+	}
+	return ChunkSpec{Kind: kind, Len: n, Seed: rapid.Uint64().Draw(t, "bigseed")}
+}
+
+// genMatrixBig: a short history of put/get/has on a chunk with a large transfer form (about one
+// matrix case in 25), mostly on a writable server that agrees with the client.
+func genMatrixBig(t *rapid.T) MatrixCase {
+	var c MatrixCase
+	c.ClientUnc = rapid.Bool().Draw(t, "client_unc")
+	c.ServerUnc = c.ClientUnc
+	if rapid.IntRange(0, 9).Draw(t, "disagree") == 0 {
+		c.ServerUnc = !c.ClientUnc
+	}
+	c.UpstreamUnc = rapid.Bool().Draw(t, "upstream_unc")
+	c.ClientSkip = rapid.Bool().Draw(t, "client_skip")
+	c.ServerSkipWrite = rapid.Bool().Draw(t, "server_skip_write")
+	c.UpstreamSkip = rapid.Bool().Draw(t, "upstream_skip")
+	c.Writable = rapid.IntRange(0, 9).Draw(t, "writable") > 0
+	c.Retry = rapid.IntRange(0, 2).Draw(t, "retry")
+	c.Chunks = append(c.Chunks, genBigChunkSpec(t))
+	c.Pre = append(c.Pre, rapid.SampledFrom([]string{"missing", "missing", "present", "other"}).Draw(t, "pre"))
+	if rapid.IntRange(0, 2).Draw(t, "second") == 0 {
+		c.Chunks = append(c.Chunks, genChunkSpec(t, "c"))
+		c.Pre = append(c.Pre, rapid.SampledFrom([]string{"present", "missing"}).Draw(t, "pre"))
+	}
+	nops := rapid.IntRange(1, 4).Draw(t, "nops")
+	for i := 0; i < nops; i++ {
+		op := MOp{Op: rapid.SampledFrom([]string{"put", "put", "put", "get", "get", "has", "putbad"}).Draw(t, "op")}
+		if len(c.Chunks) > 1 && rapid.IntRange(0, 3).Draw(t, "chunk") == 0 {
+			op.Chunk = 1
+		}
+		c.Ops = append(c.Ops, op)
+	}
+	return c
+}
+
+// transferMeter sits in front of the chunk server and notes, independently of both sides, the
+// size of the last PUT body (Content-Length) and of the last GET response.
+type transferMeter struct {
+	h       http.Handler
+	mu      sync.Mutex
+	putLen  int64
+	getLen  int64
+	getCode int
+}
+
+type countingResponse struct {
+	http.ResponseWriter
+	n    int64
+	code int
+}
+
+func (c *countingResponse) WriteHeader(code int) {
+	if c.code == 0 {
+		c.code = code
+	}
+	c.ResponseWriter.WriteHeader(code)
+}
+
+func (c *countingResponse) Write(b []byte) (int, error) {
+	if c.code == 0 {
+		c.code = http.StatusOK
+	}
+	n, err := c.ResponseWriter.Write(b)
+	c.n += int64(n)
+	return n, err
+}
+
+func (m *transferMeter) ServeHTTP(w http.ResponseWriter, r *http.Request) {
+	switch r.Method {
+	case "PUT":
+		m.mu.Lock()
+		m.putLen = r.ContentLength
+		m.mu.Unlock()
+		m.h.ServeHTTP(w, r)
+	case "GET":
+		cw := &countingResponse{ResponseWriter: w}
+		m.h.ServeHTTP(cw, r)
+		m.mu.Lock()
+		m.getLen, m.getCode = cw.n, cw.code
+		m.mu.Unlock()
+	default:
+		m.h.ServeHTTP(w, r)
+	}
+}
+
+func (m *transferMeter) lastPut() int64 {
+	m.mu.Lock()
+	defer m.mu.Unlock()
+	n := m.putLen
+	m.putLen = -1
+	return n
+}
+
+func (m *transferMeter) lastGet() (int64, int) {
+	m.mu.Lock()
+	defer m.mu.Unlock()
+	n, code := m.getLen, m.getCode
+	m.getLen, m.getCode = -1, 0
+	return n, code
+}
+
+// bodyClasses labels a transfer of n bytes relative to the 256 KiB mark.
+func bodyClasses(o *hx.Outcome, op string, n int64, serverUnc bool, extra ...string) {
+	form := "compressed"
+	if serverUnc {
+		form = "uncompressed"
+	}
+	switch n {
+	case transferLimit - 1:
+		o.Class("matrix:" + op + ":body=256KiB-1:" + form)
+	case transferLimit:
+		o.Class("matrix:" + op + ":body=256KiB:" + form)
+	case transferLimit + 1:
+		o.Class("matrix:" + op + ":body=256KiB+1:" + form)
+	}
+	if n > transferLimit {
+		o.Class("matrix:" + op + ":body>256KiB:" + form)
+		for _, e := range extra {
+			o.Class("matrix:" + op + ":body>256KiB:" + e)
+		}
+	}
+}
+
 func genMatrix(t *rapid.T) MatrixCase {
+	if rapid.IntRange(0, 24).Draw(t, "big") == 0 {
+		return genMatrixBig(t)
+	}
 	var c MatrixCase
 	c.ClientUnc = rapid.Bool().Draw(t, "client_unc")
 	c.ServerUnc = rapid.Bool().Draw(t, "server_unc")
@@ -109,7 +257,8 @@ func runMatrix(c MatrixCase) (o hx.Outcome) {
 	if err != nil {
 		panic(err)
 	}
-	srv := startServer(desync.NewHTTPHandler(up, c.Writable, c.ServerSkipWrite, serverConverters(c.ServerUnc), ""), true)
+	meter := &transferMeter{h: desync.NewHTTPHandler(up, c.Writable, c.ServerSkipWrite, serverConverters(c.ServerUnc), ""), putLen: -1, getLen: -1}
+	srv := startServer(meter, true)
 	defer srv.Close()
 	retry := c.Retry
 	if retry < 0 || retry > 4 {
@@ -143,6 +292,9 @@ func runMatrix(c MatrixCase) (o hx.Outcome) {
 			res, detail := classifyGet(ch, err, ids[i], data[i])
 			if putOK[i] {
 				o.Class("matrix:read-after-put")
+			}
+			if gl, code := meter.lastGet(); agree && st == "present" && code == http.StatusOK {
+				bodyClasses(&o, "get", gl, c.ServerUnc)
 			}
 			if !agree {
 				// only an error or the correct data are acceptable
@@ -224,6 +376,10 @@ func runMatrix(c MatrixCase) (o hx.Outcome) {
 			}
 			err = client.StoreChunk(ch)
 			res, detail := classifyPut(err)
+			if pl := meter.lastPut(); op.Op == "put" && c.Writable && agree {
+				// a valid chunk, a healthy writable server, agreeing formats: the put must succeed
+				bodyClasses(&o, "put", pl, c.ServerUnc, map[bool]string{true: "skip-verify-write", false: "verify-write"}[c.ServerSkipWrite])
+			}
 			stored, exists, rerr := readPlanted(dir, ids[i], c.UpstreamUnc)
 			if res == resOK {
 				// success must mean: the upstream store now holds exactly what was sent, in its own format
@@ -309,4 +465,52 @@ func runMatrix(c MatrixCase) (o hx.Outcome) {
 		"skip": bits(c.ClientSkip, c.ServerSkipWrite, c.UpstreamSkip), "writable": c.Writable, "chunk_lens": lens, "pre": c.Pre, "history": strings.Join(shape, " ")}
 	o.Key = fmt.Sprintf("matrix/%s/%v/%s/%v", cfgBits, c.Pre, strings.Join(shape, ""), lens)
 	return o
+}
+
+// TestFixedLarge: fixed cases around the 256 KiB mark. Uncompressed hops: raw chunk lengths
+// 256 KiB-1, 256 KiB, 256 KiB+1 and 300 KiB / 1 MiB; compressed hops: incompressible chunks whose
+// zstd transfer form sweeps through 256 KiB-1, 256 KiB, 256 KiB+1 (the framing overhead is taken
+// from the independent encoder, +-6 bytes; the classes matrix:put:body=... show what was hit),
+// plus 300 KiB and 1 MiB. Each with write verification on and off and both upstream formats:
+// put, get, has on a missing chunk and get on a planted one. One shard only.
+func TestFixedLarge(t *testing.T) {
+	if hx.Shard() != 1%hx.Shards() {
+		t.Skip()
+	}
+	overhead := len(zCompress(ChunkSpec{Kind: "rand", Len: transferLimit, Seed: 1}.bytes())) - transferLimit
+	type lc struct {
+		unc bool
+		n   int
+	}
+	var lens []lc
+	for _, n := range []int{transferLimit - 1, transferLimit, transferLimit + 1, 300 << 10, 1 << 20} {
+		lens = append(lens, lc{true, n})
+	}
+	for d := -6; d <= 6; d++ {
+		lens = append(lens, lc{false, transferLimit - overhead + d})
+	}
+	lens = append(lens, lc{false, transferLimit}, lc{false, 300 << 10}, lc{false, 1 << 20})
+	count := 0
+	for _, l := range lens {
+		for _, skipWrite := range []bool{false, true} {
+			for _, upUnc := range []bool{false, true} {
+				for _, pre := range []string{"missing", "present"} {
+					ops := []MOp{{Op: "put"}, {Op: "get"}, {Op: "has"}}
+					if pre == "present" {
+						if skipWrite { // the planted variant does not depend on the write option: once is enough
+							continue
+						}
+						ops = []MOp{{Op: "get"}, {Op: "has"}}
+					}
+					mc := MatrixCase{ClientUnc: l.unc, ServerUnc: l.unc, UpstreamUnc: upUnc, ServerSkipWrite: skipWrite, Writable: true,
+						Chunks: []ChunkSpec{{Kind: "rand", Len: l.n, Seed: uint64(l.n)}}, Pre: []string{pre}, Ops: ops}
+					count++
+					if !hx.Case(t, spec, Case{Mode: "matrix", Matrix: &mc}) {
+						return
+					}
+				}
+			}
+		}
+	}
+	hx.Note("fixed_large_cases", count)
 }
